@@ -165,7 +165,12 @@ def run(c) -> CaseResult:
     rtag = f"{'nearest' if c['fwd']['rounding'] == 'nearest' else 'stochastic'}"
     res.labels += feats + [f"fwd={c['fwd']['name']}", f"rounding={rtag}", c["via"]] + (["lossless"] if lossless(c["fwd"]) and lossless(c["bwd"]) else [])
     try:
-        qm = simulate_fp8(m) if c["via"] == "simulate_fp8" else simulate_format(m, fwd, bwd)
+        if c["via"] == "simulate_fp8":
+            qm = simulate_fp8(m)
+        elif c["seed"] % 3 == 0:   # keyword spelling, any order
+            qm = simulate_format(bwd_format=bwd, module=m, fwd_format=fwd)
+        else:
+            qm = simulate_format(m, fwd, bwd)
         P = dict(qm.named_parameters())
         fl = prep(inputs, rg)
         with patch("torch.randint", pinned):
